@@ -518,6 +518,7 @@ def run(program, res, tier):
     c18.polarity_rule(program, Relabel(res, {"*": "C03-S4"}), rule="C03-S4", windows=False, backends=("polars",))
     c18.polarity_rule(program, Relabel(res, {"*": "C03-S4"}), rule="C03-S4", windows=True, backends=("polars",))
     c09._s3(program, Relabel(res, {"*": "C03-S4"}))
+    c18.null_position_rule(program, res, ["polars"], rule="C03-S4")
     _s5_jointypes(program, res)
     c16.polars_coalesce_rule(program, Relabel(res, {"*": "C03-S5"}), rule="C03-S5")
     c16.polars_join_guard_rule(program, Relabel(res, {"*": "C03-S5"}), rule="C03-S5")
